@@ -194,6 +194,8 @@ extern volatile int w_san_error;
 const char *w_output(void);  int w_output_len(void);  void w_output_reset(void);
 void world_config_header(char *out, size_t n);
 void world_resolve_samples(void);
+extern int w_liveness;
+long world_liveness_check(uint64_t *nodes, mcx_hash_t *witness);
 void w_sample(const char *fmt, ...) __attribute__((format(printf, 1, 2)));
 void w_esc(char *out, size_t n, const uint8_t *b, int len);
 uint64_t w_lib_hash(void);
